@@ -634,7 +634,7 @@ def run_case_c03(case):
 # C08: synchronisation algebra
 
 OPS08 = ['cset', 'cset', 'cdel', 'cpop', 'cupdate', 'cclear', 'aset', 'aset', 'adel', 'dump', 'dumpk',
-         'load', 'loadk', 'sync', 'syncclear', 'off', 'on', 'on', 'open', 'drop', 'assign']
+         'load', 'loadk', 'sync', 'syncclear', 'off', 'on', 'on', 'open', 'drop', 'assign', 'baddump']
 
 
 def gen_case_c08(rng):
@@ -671,6 +671,8 @@ def gen_case_c08(rng):
             ops.append([o, [[enc(k), enc(value_pool(b, rng, u))] for k in rng.sample(keys, 2)]])
         elif o in ('dumpk', 'loadk'):
             ops.append([o, [enc(k) for k in rng.sample(keys + ['absent-key'], rng.choice([1, 2]))]])
+        elif o == 'baddump':
+            ops.append([o, int(rng.random() < 0.4)])
         else:
             ops.append([o])
     return {'backend': b, 'ops': ops, 'seed': rng.randrange(1 << 30)}
@@ -762,6 +764,45 @@ class Run08(object):
                 k = dec(op[1])
                 if k in A:
                     del self.arch[k]; del A[k]
+        elif o == 'baddump':
+            # the cache holds one value the backend cannot encode when dump()/sync() is asked for: whether that raises or
+            # not, no entry that was already archived may be lost or changed to something never cached, and the archive
+            # stays usable
+            kind = unencodable(self.b)
+            if kind is None or cur is None or self.arch is not self.orig:
+                return
+            self.note('c08_dumps_with_unencodable_value')
+            bad = make_unencodable(kind)
+            c['zz-unencodable'] = bad
+            raised = None
+            try:
+                if op[1]:
+                    c.sync()
+                else:
+                    c.dump()
+            except Exception as e:
+                raised = e
+            dict.pop(c, 'zz-unencodable', None)
+            real = dict(c.archive.items())
+            real.pop('zz-unencodable', None)
+            try:
+                c.archive.pop('zz-unencodable', None)
+            except Exception:
+                pass
+            for k, v in cur.items():
+                if k not in real:
+                    self.bad('failed-dump-lost-archived-entry', 'dump()/sync() with one un-encodable cached value (%s) %s; '
+                             'archived key %r is gone' % (kind, 'raised %s' % type(raised).__name__ if raised else 'returned', k))
+                    return
+                if not (same_value(real[k], v) or (k in M and same_value(real[k], M[k]))):
+                    self.bad('failed-dump-changed-archived-entry', 'after a dump()/sync() with one un-encodable cached value, '
+                             'archived key %r holds %s' % (k, _s(real[k])))
+                    return
+            cur.clear(); cur.update(real)       # (a directory archive may have taken some of the keys before failing)
+            if op[1] and raised is None:
+                M.update(cur)
+            elif op[1]:
+                M.clear(); M.update(dict(c))
         elif o == 'dump':
             c.dump()
             if cur is not None:
